@@ -569,11 +569,14 @@ Qed.
 
 Lemma mono_of_actors R ops :
   wf_ids ops ->
-  (forall a b, In a (map snd (ids_of ops)) -> In b (map snd (ids_of ops)) ->
+  (forall a b, In a (id_actors ops) -> In b (id_actors ops) ->
      bytes_cmp (r_actor R a) (r_actor R b) = bytes_cmp a b) ->
   forall x y, In x (ids_of ops) -> In y (ids_of ops) -> opid_cmp (rn_id R x) (rn_id R y) = opid_cmp x y.
 Proof.
   intros [W _] Hact x y Hx Hy.
+  assert (Hin : forall z, In z (ids_of ops) -> 1 <= fst z -> In (snd z) (id_actors ops)).
+  { intros z Hz Wz. unfold id_actors. apply in_map. apply filter_In. split; [exact Hz|].
+    destruct (opid_eqb z root_id) eqn:E; [|reflexivity]. apply opid_eqb_spec in E. subst z. cbn in Wz. lia. }
   destruct (W x Hx) as [->|Wx], (W y Hy) as [->|Wy].
   - reflexivity.
   - rewrite (rn_id_nonroot R y Wy). change (rn_id R root_id) with root_id. unfold opid_cmp, root_id. cbn [fst snd].
@@ -582,7 +585,7 @@ Proof.
     assert (E : N.compare (fst x) 0 = Gt) by (apply N.compare_gt_iff; lia). rewrite E. reflexivity.
   - rewrite (rn_id_nonroot R x Wx), (rn_id_nonroot R y Wy). unfold opid_cmp. cbn [fst snd].
     destruct (N.compare (fst x) (fst y)); try reflexivity.
-    apply Hact; apply in_map; assumption.
+    apply Hact; apply Hin; assumption.
 Qed.
 
 (* ------------------------------------------------------------------ histories: graph, clocks, reads at heads *)
@@ -757,7 +760,9 @@ Proof.
   - intros o Ho. cbn [rn_op op_id]. destruct (h_wf _ _ _ H) as [_ W].
     rewrite (rn_id_nonroot R (op_id o) (W o Ho)). unfold covered. cbn [fst snd].
     rewrite (clock_get_rn R AD (h_act _ _ _ H)); [reflexivity|exact Hk|].
-    unfold AD, hist_actors. apply in_or_app. right. apply in_map, in_ids_id, Ho.
+    unfold AD, hist_actors, id_actors. apply in_or_app. right. apply in_map. apply filter_In.
+    split; [apply in_ids_id, Ho|]. destruct (opid_eqb (op_id o) root_id) eqn:E; [|reflexivity].
+    apply opid_eqb_spec in E. pose proof (W o Ho) as Wo. rewrite E in Wo. cbn in Wo. lia.
 Qed.
 
 Theorem heads_rename R appl hs : good_hist R appl hs ->
